@@ -212,7 +212,7 @@ def traceEvents (ops : List Op) : Nat → List Char → Option Nat → Bool → 
 
 `D<p>` page write, `Ja<b>` journal started for a checkpoint of `b` pages, `J<p>=` / `J<p>!` checkpointed contents of
 page `p` saved (the harness compares them with the file at the last `Ja`), `j` journal sync, `Jd` journal marked done,
-`t` log truncated, `u` journal emptied.  `Journal.accepts` (hypothesis of `restore_returns_checkpoint`) must accept. -/
+`d` database file sync, `t` log truncated, `u` journal emptied.  `Journal.accepts` (hypothesis of `restore_returns_checkpoint`) must accept. -/
 
 def digitsToNat (d : List Char) : Nat := ((String.ofList d).toNat?).getD 0
 
@@ -236,6 +236,7 @@ def journalTrace : Nat → List Char → List AxVerif.Journal.Ev → Bool → Li
         | _ :: r' => journalTrace fuel r' (.save (digitsToNat d) :: acc) false
         | [] => ((AxVerif.Journal.Ev.save (digitsToNat d) :: acc).reverse, false)
     else if c == 'j' then journalTrace fuel cs (.jsync :: acc) same
+    else if c == 'd' then journalTrace fuel cs (.dsync :: acc) same
     else if c == 't' then journalTrace fuel cs (.dropLog :: acc) same
     else if c == 'u' then journalTrace fuel cs (.empty :: acc) same
     else journalTrace fuel cs acc same
@@ -243,7 +244,7 @@ def journalTrace : Nat → List Char → List AxVerif.Journal.Ev → Bool → Li
 def journalProblem (tr : String) : List String :=
   let (evs, same) := journalTrace (tr.length + 1) tr.toList [] true
   (if AxVerif.Journal.accepts evs then [] else
-    ["J: the I/O trace breaks the journal rule (a checkpointed page overwritten before its contents were saved and synced, or the log dropped before the journal was marked done)"])
+    ["J: the I/O trace breaks the journal rule (a checkpointed page overwritten before its contents were saved and synced, the journal marked done or started over unsynced page writes, or the log dropped before the journal was marked done)"])
   ++ (if same then [] else ["J: a journal entry does not hold the checkpointed contents of its page"])
 
 def traceOfObs (obs : String) : Option String :=
